@@ -26,8 +26,24 @@ func newParamWrites() *paramWrites {
 
 // rootOf follows address/value derivations back to a Parameter, Global or FreeVar.
 func rootOf(v ssa.Value, depth int) ssa.Value {
+	return rootOfSeen(v, depth, map[ssa.Value]bool{})
+}
+
+func rootOfSeen(v ssa.Value, depth int, seen map[ssa.Value]bool) ssa.Value {
 	for i := 0; i < depth; i++ {
 		switch x := v.(type) {
+		case *ssa.Phi:
+			// a loop-carried view of the same storage (`dst = dst[1:]`): any incoming value that has a root
+			if seen[x] {
+				return nil
+			}
+			seen[x] = true
+			for _, e := range x.Edges {
+				if r := rootOfSeen(e, depth-i, seen); r != nil {
+					return r
+				}
+			}
+			return nil
 		case *ssa.Global, *ssa.Parameter, *ssa.FreeVar:
 			return v
 		case *ssa.FieldAddr:
